@@ -36,6 +36,8 @@ impl verif::Monitor for OriginMonitor {
 }
 
 pub struct RealRun {
+    /// the interpreter the program ran in (unscoped), still holding its top-level variables
+    pub interp: Option<Interpreter<'static>>,
     pub origin: Origin,
     pub outcome: Outcome,
     /// content of the `log` cell after the run (None if the prelude did not get to define it)
@@ -53,12 +55,12 @@ pub fn read_log(interp: &Interpreter) -> Option<Vec<i64>> {
 
 /// parse with stdlib and run unscoped in that interpreter (so the log cell stays reachable after an error)
 pub fn run_real(text: &str, fuel: u64) -> RealRun {
-    let mut interp = Interpreter::with_stdlib();
+    let mut interp: Interpreter<'static> = Interpreter::with_stdlib();
     let parsed = real::guarded(|| Code::parse(&interp, text));
     let code = match parsed {
-        Err(p) => return RealRun { origin: Origin::default(), outcome: Outcome::Panic(p), log: None, static_type: None, steps: 0 },
+        Err(p) => return RealRun { interp: None, origin: Origin::default(), outcome: Outcome::Panic(p), log: None, static_type: None, steps: 0 },
         Ok(Err(e)) => {
-            return RealRun { origin: Origin::default(), outcome: Outcome::Rejected(real::error_variant(&e), real::parse_err_kind(&e)), log: None, static_type: None, steps: 0 };
+            return RealRun { interp: None, origin: Origin::default(), outcome: Outcome::Rejected(real::error_variant(&e), real::parse_err_kind(&e)), log: None, static_type: None, steps: 0 };
         }
         Ok(Ok(c)) => c,
     };
@@ -83,7 +85,7 @@ pub fn run_real(text: &str, fuel: u64) -> RealRun {
         Ok(Err(e)) => Outcome::ExecErr(real::exec_err_kind(&e), format!("{e:?}")),
     };
     let log = read_log(&interp);
-    RealRun { origin, outcome, log, static_type, steps }
+    RealRun { interp: Some(interp), origin, outcome, log, static_type, steps }
 }
 
 pub enum RefOutcome {
@@ -100,11 +102,14 @@ pub struct RefRun {
     pub pulls: u64,
     /// the program held the payload of an exhausted iterator step in its hands (manual pull past the end)
     pub unspec_manual: bool,
+    /// top-level bindings when the run ended (latest binding of each name)
+    pub final_env: Vec<(String, V)>,
 }
 
 pub fn run_ref(body: &[S], fuel: u64) -> RefRun {
     let mut m = Machine::new(fuel);
-    let (r, _env) = m.program(body);
+    let (r, env) = m.program(body);
+    let final_env = refeval::env_bindings(&env);
     let outcome = match r {
         Ok(v) => RefOutcome::Value(v),
         Err(Flow::Err(k)) => RefOutcome::Err(k),
@@ -112,7 +117,7 @@ pub fn run_ref(body: &[S], fuel: u64) -> RefRun {
         Err(Flow::Break) | Err(Flow::Continue) => RefOutcome::GiveUp("break/continue at top level".into()),
         Err(Flow::Return(_)) => RefOutcome::GiveUp("return at top level".into()),
     };
-    RefRun { outcome, log: m.log.iter().map(|k| *k as i64).collect(), lookups: m.lookups, calls: m.calls, pulls: m.pulls, unspec_manual: m.unspec_manual > 0 }
+    RefRun { outcome, log: m.log.iter().map(|k| *k as i64).collect(), lookups: m.lookups, calls: m.calls, pulls: m.pulls, unspec_manual: m.unspec_manual > 0, final_env }
 }
 
 /// verdict of comparing one real run with the reference
@@ -168,7 +173,26 @@ pub fn compare_runs(real: &RealRun, reference: &RefRun, judge: &Judge) -> Diff {
             }
         }
         (RefOutcome::Err(k), Outcome::ExecErr(Some(g), _)) => {
-            if k == g || !judge.value {
+            if k == g && judge.value {
+                // the failing operation must leave the state as it was: every top-level cell still holds what the
+                // reference heap holds at the moment of the failure
+                if let Some(interp) = &real.interp {
+                    for (name, v) in &reference.final_env {
+                        if !matches!(v, V::Cell(_)) {
+                            continue;
+                        }
+                        if let Some(rv) = interp.get_variable(name) {
+                            if let Err(why) = refeval::compare(v, rv) {
+                                if reference.unspec_manual {
+                                    return Diff::Skip("reference:uses an unspecified exhausted-iterator payload".into());
+                                }
+                                return Diff::Differ("state-after-error".into(), format!("after the run failed with {}, cell `{name}`: {why}", k.name()));
+                            }
+                        }
+                    }
+                }
+                Diff::Same
+            } else if k == g || !judge.value {
                 Diff::Same
             } else {
                 Diff::Differ("error-kind".into(), format!("failed with {} where {} is documented", g.name(), k.name()))
